@@ -198,6 +198,29 @@ def leftover_locks_pre(sc, r):
     return out
 
 
+def program_mutations(sc, r):
+    """expected mutation list per transaction of a step program: {start_ts: {key: op}} (only steps that succeeded)"""
+    out = {}
+    failed = {st["i"] for st in r.get("steps", []) if st.get("err") or st.get("skipped") or st.get("panic")}
+    for name, tv in (r.get("txns") or {}).items():
+        spec = dict(sc["txns"][name])
+        ops = []
+        for i, st in enumerate(sc["program"]):
+            if st.get("t") != name or i in failed:
+                continue
+            if st["op"] in ("set", "del", "insert"):
+                ops.append({"op": st["op"], "k": st["k"], "v": st.get("v", "")})
+            elif st["op"] == "lock":
+                for k in st.get("ks", []):
+                    ops.append({"op": "plock" if spec.get("pessimistic") else "lockonly", "k": k})
+        spec["ops"] = ops
+        # in a pessimistic transaction a write without a preceding lock is prewritten without the pessimistic check;
+        # the op is the same. expected_mutations marks every written key of a pessimistic spec as locked, which only
+        # matters for insert-then-delete; programs do not generate that pattern.
+        out[tv["start"]] = expected_mutations(spec)
+    return out
+
+
 # ------------------------------------------------------------------ projection to PERC events
 def project(sc, r):
     """trace -> list of event lines (docs/PERC_EVENTS.md)"""
@@ -213,6 +236,7 @@ def project(sc, r):
     hexn = lambda v: "%x" % int(v)
     S = r.get("start_ts")
     muts = expected_mutations(sc["txn"])
+    prog_muts = program_mutations(sc, r) if sc.get("program") else {}
     sends = {}
     def kerr(e):
         k = (e or {}).get("kind", "other")
@@ -228,7 +252,10 @@ def project(sc, r):
         elif k == "commit_call":
             if (f.get("finish") or "commit") == "commit":
                 lines.append(f"commit_call\t{hexn(f['start'])}\t{1 if f.get('causal') else 0}")
-                ml = ",".join(f"{kid(kk.encode().hex())}:{op}" for kk, op in sorted(muts.items()))
+                mm = prog_muts.get(f["start"]) if sc.get("program") else muts
+                if mm is None:
+                    continue
+                ml = ",".join(f"{kid(kk.encode().hex())}:{op}" for kk, op in sorted(mm.items()))
                 prim = None
                 for e2 in r.get("trace", []):
                     f2 = e2.get("f", {})
